@@ -84,6 +84,8 @@ const ERROR_SHAPES: &[&str] = &[
     "~~", "~/~", "a/~", "a~", "~x", "~x/y", "x/~/y", "$", "${}", "$$", "a$", "abc$", "$/a", "a/$", "a/$/b", "a$/b", "${}/a", "$${V1}",
     "$UNSET", "${UNSET}", "a/$UNSET/b", "a${UNSET}b", "~/$UNSET", "~", "~/", "~/a", "~/a/b", "~/$V1", "~/${V2}/x", "~/..", "~/.",
     "a", "a/b", "/a/b", "a//b", "./a", "../a", "a/./b", "a/", "/", ".", "", " ", "a b/c", "é/日", "file://a", "/foo/${HOME}", "/foo/$V1",
+    // the home symbol in every position of absolute and variable-led paths too
+    "/~", "/~/x", "/a/~", "/a~", "/a~b", "/a/~/~", "/~~", "//~", "/a/b/~/c", "./~", "../~", "$V1/~", "${V1}~", "/$V1/~", "/a/~x", "~/a~", "~/a/~",
     "$V1", "${V1}", "$V1/$V2", "${V1}${V2}", "$V1$V2", "x${V1}y", "x$V1", "/$V1", "/${V1}/", "$HOME", "${HOME}/a", "$HOME/$HOME",
 ];
 
@@ -105,7 +107,14 @@ fn templates_for(seed: u64, env_idx: u64, count: usize, comps: &[String]) -> Vec
         }
         let p = prefixes[((r >> 4) % prefixes.len() as u64) as usize];
         let trail = if (r >> 60) & 3 == 0 { "/" } else { "" };
-        t.push(format!("{}{}{}", p, parts.join("/"), trail));
+        let mut s = format!("{}{}{}", p, parts.join("/"), trail);
+        // one in six gets a home symbol at a seeded character position (any position but a lone leading one must fail)
+        if (r >> 40) % 6 == 0 {
+            let at = ((r >> 44) as usize) % (s.chars().count() + 1);
+            let byte = s.char_indices().nth(at).map(|(b, _)| b).unwrap_or(s.len());
+            s.insert(byte, '~');
+        }
+        t.push(s);
     }
     t
 }
